@@ -74,7 +74,7 @@ class Gen:
             w = {k: v * 0.15 for k, v in w.items()}
             w.update(over)
         self.weights = w
-        self.scene_rate = 0.0 if profile in ("fuzz", "pingpong") else 0.035
+        self.scene_rate = 0.0 if profile in ("fuzz", "pingpong") else (0.09 if profile == "reg" else 0.035)
 
     # ------------------------------------------------------------------ config
     def gen_cfg(self):
@@ -90,7 +90,7 @@ class Gen:
             lines.append("cfg max_joins %d" % self.max_joins)
         self.max_conns = None
         if r.random() < (0.5 if self.profile in ("stats", "reg") else 0.1):
-            self.max_conns = r.choice([1, 2, 3, 4])
+            self.max_conns = r.choice([1, 2, 3, 4] if self.profile != "reg" else [1, 2, 3, 4, 6, 8, 8])
             lines.append("cfg max_connections %d" % self.max_conns)
         if r.random() < 0.4:
             dum = "".join(c for c in "iOorw" if r.random() < 0.25)
@@ -272,21 +272,32 @@ class Gen:
         n2 = r.choice([x for x in free if x != n1] or ["zz8"])
         pws = [p for p in (self.server_pw, self.cfg_users.get("reg")) if p] + ["wrong"]
         k = r.choice(["overtaken", "overtaken", "taken_then_user", "pass_twice", "user_twice", "cap_mid"])
-        if r.random() < 0.8 and len(pws) > 1:
-            L(c, "PASS " + r.choice(pws))
         if k == "overtaken":
             # NICK accepted while free, somebody else registers it first, completion is refused (433), then the
-            # connection names another user (possibly a configured one with its own password) and another nick
+            # connection names ANOTHER user (a configured one with its own password <-> an ordinary one under the
+            # server password) and another nick: the password must be checked again for the new identity
+            ids = [("x", self.server_pw), ("reg", self.cfg_users.get("reg") or self.server_pw)]
+            if r.random() < 0.5:
+                ids.reverse()
+            (u1, p1), (u2, p2) = ids
+            if r.random() < 0.3:
+                u2 = r.choice(["u1", n2, u1])
+            if p1 and r.random() < 0.8:
+                L(c, "PASS " + p1)
+            elif r.random() < 0.5:
+                L(c, "PASS " + r.choice(pws))
             L(c, "NICK " + n1)
             d = self.new_conn()
             if d is not None:
                 self.register(d, n1)
-            L(c, "USER %s 0 * :R" % r.choice(["x", "u1", n1]))
-            if r.random() < 0.3:
+            L(c, "USER %s 0 * :R" % u1)
+            if r.random() < 0.2:
                 L(c, "PASS " + r.choice(pws))
-            L(c, "USER %s 0 * :R2" % r.choice(["reg", "reg", "x", n2]))
+            L(c, "USER %s 0 * :R2" % u2)
             L(c, "NICK " + n2)
         elif k == "taken_then_user":
+            if r.random() < 0.8 and len(pws) > 1:
+                L(c, "PASS " + r.choice(pws))
             taken = r.choice(sorted(live)) if live else n1
             L(c, "NICK " + taken); L(c, "USER %s 0 * :R" % r.choice(["reg", "x"])); L(c, "NICK " + n2)
             L(c, "USER %s 0 * :R" % r.choice(["reg", "x", "u2"]))
